@@ -170,7 +170,7 @@ class Translator:
 
 def render(c, lines, lets=None, prelude=""):
     decl = c.schema.decl() if c.declared else ""
-    lets = c.lets if lets is None else lets
+    lets = [l for l in c.lets if not l[0].startswith('_h')] if lets is None else lets
     body = " ".join(lines)
     used = set()
     for i in range(len(lets) - 1, -1, -1):
@@ -180,7 +180,7 @@ def render(c, lines, lets=None, prelude=""):
 
 
 def model_program(c, lines, lets=None, extra_globals=()):
-    lets = c.lets if lets is None else lets
+    lets = [l for l in c.lets if not l[0].startswith('_h')] if lets is None else lets
     body = " ".join(lines)
     used = []
     marks = set()
@@ -204,6 +204,8 @@ def frame_closed_flags(c):
     closed = False
     letclosed = {}
     for (n, t, _) in c.lets:
+        if n.startswith('_h'):
+            continue          # hidden let of the generator (bottom of an inline append), not part of the program text
         parts = split_top(t, " | ")
         cl = parts[0].split()[1] in letclosed and letclosed[parts[0].split()[1]]
         for p in parts[1:]:
